@@ -688,6 +688,14 @@ def judge(ck, face, box, st):
                     info["cause"] = "pole_detection" if pole_wrong else "pole_on_edge_flag"
         if prim is not None and "error" in prim:
             info["cause"] = "pole_detection_raises"
+        if (agrees is False and orc["ref_point_on_edge"] and not orc["full"] and not isinstance(box, tuple)
+                and abs(box[1][0]) <= TOL and abs(box[1][1] - TWO_PI) <= TOL
+                and (abs(box[0][1] - math.pi / 2) <= TOL or abs(box[0][0] + math.pi / 2) <= TOL)):
+            # the reference point lies exactly on an edge: whether the two reference arcs "hit" it is decided by the last bit
+            # of the node coordinates, which depends on how the grid was built (array length of the vectorised cos/sin), so the
+            # single-face replication of the pole test can differ from the evaluated grid.  The reported box itself shows which
+            # branch ran: a pole box on a face without a pole = the pole containment test fired
+            info["branch"], info["cause"], info["faithful_model"] = "pole", "pole_detection", "replication_differs_in_last_bit"
         info["size"] = "big" if amount > 1e-4 else ("small" if amount > 2e-8 else "tiny")
         ck.fail(clause, jc, info, detail="box=%r oracle=%r amount=%.3e model=%r" % (box, {k: orc[k] for k in ("lat_min", "lat_max", "lon_lo", "lon_width", "north", "south")}, amount, mfaith))
         st.add("fail", clause, info.get("branch"), info.get("cause", "unattributed"), info["size"])
@@ -695,6 +703,8 @@ def judge(ck, face, box, st):
         st.add("corr_compared")
         if False:
             pass
+        elif not agrees and orc["ref_point_on_edge"]:
+            st.add("corr_not_comparable_ref_point_on_edge")      # zero-margin for the float pole test, see above
         elif not agrees and not bad:
             ck.corr_failures.append({"case": jc, "impl": box, "model": mfaith})
         elif not agrees and bad:
